@@ -376,6 +376,60 @@ fn xen_part(ctx: &Ctx, _thorough: bool) {
     use crate::xen_emu::Emu;
     use vm_memory::MmapRange;
     let emu = Emu::new(64);
+    // guest bases within +-2 pages of the top of the address space (and with bit 63 set or not),
+    // for every valid mapping type: a region whose end exceeds 2^64 is refused whatever backs it
+    for &w in &[0x0u32, 0x1, 0x2, 0xA] {
+        for size in [4096usize, 8192] {
+            for base in [
+                0u64.wrapping_sub(size as u64).wrapping_sub(4096),
+                0u64.wrapping_sub(size as u64),
+                0u64.wrapping_sub(size as u64).wrapping_add(4096),
+                0u64.wrapping_sub(4096),
+                (1u64 << 63).wrapping_sub(size as u64),
+                (1u64 << 63),
+                0xffff_ffff_ffff_f000,
+            ] {
+                ctx.case(true);
+                let fo = if w == 0 { None } else { Some(emu.file_offset(0)) };
+                let end = base as u128 + size as u128;
+                let rp = || json!({"mmap_flags": format!("{:#x}", w), "guest_base": format!("{:#x}", base), "size": size});
+                emu.take_log();
+                let describe = || ("C15/xen/region-near-the-top".to_string(), format!("flags {:#x} base {:#x} size {:#x}", w, base, size), rp());
+                let guarded = crate::crash::guarded(ctx, &describe, || record_maps(|| {
+                    // (a UNIX mapping without a file has to be asked for as an anonymous one)
+                    let range = if w == 0 { MmapRange::new_unix(size, None, GuestAddress(base)) } else { MmapRange::new(size, fo, GuestAddress(base), w, 7) };
+                    MmapRegion::<()>::from_range(range).map_err(|e| format!("{:?}", e)).and_then(|r| GuestRegionMmap::new(r, GuestAddress(base)).map_err(|e| format!("{:?}", e)))
+                }));
+                let (res, log) = match guarded {
+                    Some(x) => x,
+                    None => {
+                        emu.take_log();
+                        emu.state.borrow_mut().live.clear();
+                        emu.state.borrow_mut().refs.clear();
+                        continue;
+                    }
+                };
+                match res {
+                    Ok(r) => {
+                        if end > (1u128 << 64) {
+                            fail(ctx, "C15/xen/GuestRegionMmap::new/beyond-address-space-accepted", format!("flags {:#x} base {:#x} size {:#x}", w, base, size), rp());
+                        }
+                        drop(r);
+                    }
+                    Err(e) => {
+                        if end < (1u128 << 64) {
+                            fail(ctx, "C15/xen/GuestRegionMmap::new/valid-refused", format!("flags {:#x} base {:#x} size {:#x}: {}", w, base, size, e), rp());
+                        }
+                    }
+                }
+                let _ = log;
+                emu.take_log();
+                emu.state.borrow_mut().live.clear();
+                emu.state.borrow_mut().refs.clear();
+                emu.state.borrow_mut().protocol_errors.clear();
+            }
+        }
+    }
     let mut words: Vec<u32> = (0u32..256).collect();
     for b in 8..32 {
         words.push(1 << b);
@@ -652,7 +706,7 @@ fn file_histories(ctx: &Ctx) {
 
 pub fn run(tier: Tier, replay: Option<String>) -> i32 {
     let ctx = crate::new_ctx("C15", tier, "fault_enumeration", &replay);
-    ctx.set_rule("Unix build: file lengths {0,1,4095,4096,4097,8192,12288} x offsets {0,1,4096,len-1,len,len+1,2^64-4096,2^64-1} x sizes {0,1,4096,rest-1,rest,rest+1,isize::MAX,usize::MAX} x all 32 subsets of {PRIVATE,SHARED,ANONYMOUS,NORESERVE,FIXED} (x 3 protections in the thorough tier) through MmapRegion::build / from_file / GuestRegionMmap::from_range and the builder with the hugetlbfs hint {unset, false, true}, descriptors opened read-only and write-only x 3 protections x shared/private (a request the kernel refuses stays refused; an accepted one made exactly the mapping it reports), anonymous requests, injected mmap failure, build_raw with pointers at page offset {0,1,8,2048,4095} with and without a backing file and for 58 flag words (all subsets of the basic bits plus huge-page sizes, populate, lock, stack, growsdown, nonblock, sync and unknown high bits: the pointer rule does not depend on the flags), guest bases within +-2 of the top of the address space, byte-by-byte coherence of shared file regions in both directions. Xen build: all 256 low mmap-flag bytes plus every single high bit (alone and combined with GRANT) x {no file, device file at offset 0, at offset 4096} x sizes (incl. past the end of the file for plain file mappings) x hugetlbfs hint {unset, false, true} x injected {none, ioctl failure, mmap failure} on the emulated gntdev/privcmd. Both builds: every sequence of three file lengths out of {0,4096,8192,12288} with every size requested after each change through one FileOffset lineage (the predicate refers to the file as it is now), and every length query of a valid construction answered with EIO / length 0 / length 2^40 (one deviation per run): whatever the outcome, nothing may stay mapped. Oracle: the statement's acceptance predicate (must fail: MAP_FIXED - which must not even reach the kernel -, overflowing or past-EOF file range, misaligned raw pointer, end beyond the address space, unknown/contradictory Xen type bits, missing file or non-zero offset for foreign/grant; safe requests the OS refuses may fail too); on success the attributes echo the request and exactly one mapping with the requested arguments was made; on failure the interposed mapping log (and the device) show nothing left mapped. One case = one request; all non-trivial; distinct by construction.");
+    ctx.set_rule("Unix build: file lengths {0,1,4095,4096,4097,8192,12288} x offsets {0,1,4096,len-1,len,len+1,2^64-4096,2^64-1} x sizes {0,1,4096,rest-1,rest,rest+1,isize::MAX,usize::MAX} x all 32 subsets of {PRIVATE,SHARED,ANONYMOUS,NORESERVE,FIXED} (x 3 protections in the thorough tier) through MmapRegion::build / from_file / GuestRegionMmap::from_range and the builder with the hugetlbfs hint {unset, false, true}, descriptors opened read-only and write-only x 3 protections x shared/private (a request the kernel refuses stays refused; an accepted one made exactly the mapping it reports), anonymous requests, injected mmap failure, build_raw with pointers at page offset {0,1,8,2048,4095} with and without a backing file and for 58 flag words (all subsets of the basic bits plus huge-page sizes, populate, lock, stack, growsdown, nonblock, sync and unknown high bits: the pointer rule does not depend on the flags), guest bases within +-2 of the top of the address space, byte-by-byte coherence of shared file regions in both directions. Xen build: guest bases within two pages of 2^64 and around 2^63 for every valid mapping type (end beyond the address space refused whatever backs the region); all 256 low mmap-flag bytes plus every single high bit (alone and combined with GRANT) x {no file, device file at offset 0, at offset 4096} x sizes (incl. past the end of the file for plain file mappings) x hugetlbfs hint {unset, false, true} x injected {none, ioctl failure, mmap failure} on the emulated gntdev/privcmd. Both builds: every sequence of three file lengths out of {0,4096,8192,12288} with every size requested after each change through one FileOffset lineage (the predicate refers to the file as it is now), and every length query of a valid construction answered with EIO / length 0 / length 2^40 (one deviation per run): whatever the outcome, nothing may stay mapped. Oracle: the statement's acceptance predicate (must fail: MAP_FIXED - which must not even reach the kernel -, overflowing or past-EOF file range, misaligned raw pointer, end beyond the address space, unknown/contradictory Xen type bits, missing file or non-zero offset for foreign/grant; safe requests the OS refuses may fail too); on success the attributes echo the request and exactly one mapping with the requested arguments was made; on failure the interposed mapping log (and the device) show nothing left mapped. One case = one request; all non-trivial; distinct by construction.");
     ctx.assume("mmap/munmap/ioctl/lseek are observed and faulted through link-time interposition; gntdev/privcmd are emulated");
     if ctx.replay_of.is_some() {
         println!("replay: deterministic enumeration; re-running it");
